@@ -162,7 +162,23 @@ func c03Session(s *c03Scn, enc *json.Encoder) verdict {
 	events := []map[string]interface{}{{"ev": "reset", "t": s.ID, "version": s.Version, "selfclose": s.SelfClose, "header": s.Header}}
 	d := sess.d
 
+	idOff := 0
+
 	for j, op := range s.Ops {
+		if j == 1 && s.ID%3 == 0 {
+			// an extra request whose payload write is refused by the transport: the call fails, nothing of it may reach the
+			// server - in particular not the return that normally follows the payload - and its message-id is used up
+			sess.pipe.ArmWriteFailure(0)
+
+			if _, ferr := d.Get(""); ferr == nil {
+				fail(&v, "C03:"+s.Version+":write-error-ignored", "a request whose payload write failed was reported as sent")
+
+				break
+			}
+
+			idOff = 1
+		}
+
 		arg := c03Args[op.Arg]
 		xp, okx := c03XPath[op.Arg]
 
@@ -273,7 +289,7 @@ func c03Session(s *c03Scn, enc *json.Encoder) verdict {
 			break
 		}
 
-		want := fmt.Sprintf(`<rpc xmlns="urn:ietf:params:xml:ns:netconf:base:1.0" message-id="%d">%s</rpc>`, 101+j, inner)
+		want := fmt.Sprintf(`<rpc xmlns="urn:ietf:params:xml:ns:netconf:base:1.0" message-id="%d">%s</rpc>`, 101+j+idOff, inner)
 		tree, werr := canon(payload)
 		expect, eerr := canon(want)
 
@@ -294,7 +310,7 @@ func c03Session(s *c03Scn, enc *json.Encoder) verdict {
 			"ev": "req", "n": j + 1, "op": op.Op, "arg": op.Arg, "wire": classify([]byte(framed), s.Version), "msgid": msgid,
 			"decl": strings.HasPrefix(payload, "<?xml"), "inputeq": payload == string(r.Input), "framedeq": framedEq,
 			"wf": werr == nil, "tree": tree, "expect": expect,
-			"selfclosed": strings.Count(payload, "/>") > strings.Count(given, "/>"), "streamerrors": ferrs,
+			"selfclosed": strings.Count(payload, "/>") > strings.Count(given, "/>"), "streamerrors": ferrs, "skipped": idOff,
 		})
 	}
 
